@@ -23,7 +23,17 @@ def run_property(prop, tier, seed, model=None, quiet=False, write=True):
     broken = []     # rules that could not be evaluated (vanished anchor, vacuous instance count)
     for rule in spec['rules']:
         try:
-            res = rule(model)
+            # a rule is a pure function of the model: when several properties are evaluated on one
+            # model (self-test, seed tools) its result is computed once
+            cache = model.__dict__.setdefault('_rule_cache', {})
+            if rule not in cache:
+                try:
+                    cache[rule] = rule(model)
+                except AnalysisError as e:
+                    cache[rule] = e
+            res = cache[rule]
+            if isinstance(res, AnalysisError):
+                raise res
             if not isinstance(res, (list, tuple)):
                 res = [res]
             for r in res:
